@@ -185,13 +185,15 @@ class C13(Prop):
     quick_deadline_s = 100
     thorough_deadline_s = 800
     all_branches = ["conc:linearised", "ingest:plain", "ingest:emergency", "ingest:emergency-dropped", "ingest:capacity-noop",
-                    "ingest:auto", "ingest:auto-all", "ingest:auto-error-logged", "digest:none", "digest:zero",
+                    "ingest:auto", "ingest:auto-all", "ingest:auto-error-logged", "ingest:emergency-unmergeable-counted",
+                    "digest:unmergeable-result", "digest:none", "digest:zero",
                     "digest:pos", "digest:neg", "digest:errors", "digest:empty", "autophagy:some", "autophagy:none",
                     "autophagy:raises-on-aware-timestamp", "set:maxq", "set:thr", "set:ret", "set:ontox"]
     assumptions = [
-        "digesters and the on_toxic callback return a dict / None / a falsy value / a list of pairs or raise an Exception "
-        "whose message can be formatted (str(e) returns); they do not call back into the lysosome and do not raise "
-        "BaseException",
+        "digesters return ANY value whose truth test returns (dicts, falsy values, lists / iterators / generators of pairs, "
+        "mapping objects, and truthy values dict.update raises an Exception on, at once or part-way) or raise an "
+        "Exception; the on_toxic callback returns or raises an Exception; exception messages can be formatted (str(e) "
+        "returns); neither calls back into the lysosome nor raises BaseException",
         "threading.Lock / RLock semantics as in Operon.Lysosome.Step; loops over the queue are finite",
         "thread switches happen between source lines (the scheduler search is line-granular); `x += 1` on a counter "
         "outside the lock is treated as one atomic line",
@@ -329,7 +331,7 @@ class C13(Prop):
 
     def _op(self, rng, nid, ret):
         r = rng.random()
-        c = rng.choice([0, 1, 2, 3, 2, 3, 5, 6, 7])
+        c = rng.choice([0, 1, 2, 3, 2, 3, 4, 5, 6, 7])
         i = rng.choice([nid, nid, nid, rng.randint(1, 3)])
         if r < 0.36:
             return f"ingest {rng.choice(TYPES)} {i} {c}"
@@ -443,6 +445,36 @@ class C13(Prop):
                                                        f"ingest_sensitive {nid} 1", f"ingest_error {nid} 2"]))
         return lines
 
+    def _foreign_results(self, rng):
+        """digesters that return normally but hand back foreign data: truthy values `dict.update` cannot merge (at all,
+        or only up to a point), mergeable values of unusual types — met by digest, the auto-digest at the threshold and
+        the emergency digest at capacity in one history, with raising digesters and plain items in between"""
+        mq = rng.choice([2, 3, 4, 6, 8, 1000])
+        at = rng.choice([mq + 1, 1000, 2, 3, 1, mq])
+        lines = [f"cfg {mq} {at} {rng.choice(RETS)} {rng.choice(['ssss', 'ssss', 'sbsb', 'bsss'])} {rng.choice('bbs')} "
+                 f"{rng.choice(['set', 'set', 'none'])}"]
+        nid = 0
+        for _ in range(rng.randint(2, 9)):
+            nid += 1
+            r = rng.random()
+            if r < 0.6:
+                lines.append(f"ingest {rng.choice(TYPES)} {nid} {rng.choice([4, 5, 7, 4, 5, 7, 6, 0, 2, 3, 1])}")
+            elif r < 0.68:
+                lines.append(f"ingest_error {nid} {rng.choice([4, 5, 7, 6, 2])}")
+            elif r < 0.74:
+                lines.append(f"ingest_sensitive {nid} {rng.choice([4, 5, 7, 0, 1])}")
+            elif r < 0.92:
+                lines.append(f"digest {rng.choice(['none', 'none', 1, 2, 0, -1])}")
+            elif r < 0.96:
+                lines.append("autophagy")
+            else:
+                lines.append(rng.choice(["status", "clearbin", "adv 3515625"]))
+        lines.append(rng.choice(["digest none", "digest none", "digest 2"]))
+        if rng.random() < 0.3:
+            lines = [lines[0]] + [(f"@{rng.choice([1, 2])} " + l) if rng.random() < 0.4 and not l.startswith("adv") else l
+                                  for l in lines[1:]]
+        return lines
+
     def _conc(self, rng):
         cfg, (mq, at, ret) = self._cfg(rng)
         if rng.random() < 0.7:       # configurations whose every digester call is visible: the recorded order of
@@ -452,7 +484,7 @@ class C13(Prop):
         nid = 0
         for _ in range(rng.choice([0, 0, 1, 2, 3])):
             nid += 1
-            lines.append(f"ingest {rng.choice(TYPES)} {nid} {rng.choice([0, 1, 2, 3])}")
+            lines.append(f"ingest {rng.choice(TYPES)} {nid} {rng.choice([0, 1, 2, 3, 4, 5])}")
         progs = []
         for t in range(2):
             ops = []
@@ -460,7 +492,7 @@ class C13(Prop):
                 nid += 1
                 r = rng.random()
                 if r < 0.55:
-                    ops.append(f"ingest,{rng.choice(TYPES)},{nid},{rng.choice([0, 1, 2, 3])}")
+                    ops.append(f"ingest,{rng.choice(TYPES)},{nid},{rng.choice([0, 1, 2, 3, 5, 7])}")
                 elif r < 0.80:
                     ops.append(f"digest,{rng.choice(['none', 1, 2, 0])}")
                 elif r < 0.88:
@@ -486,6 +518,9 @@ class C13(Prop):
                        "note": "lysosome shared by an application and an AutophagyDaemon"}
             elif r < 0.34:
                 yield {"lines": self._reconfigured(rng), "note": "public settings re-assigned between calls"}
+            elif r < 0.42:
+                yield {"lines": self._foreign_results(rng),
+                       "note": "digesters that return values dict.update cannot merge / merges only part of"}
             else:
                 yield {"lines": self._history(rng, rng.choice([1, 2, 3, 4, 6, 8, 10, 12, 14])), "note": "random history"}
 
@@ -521,6 +556,19 @@ class C13(Prop):
         spaces.append({"name": "all histories of <= 3 (quick) / 4 (thorough) ops over {aware ingest, ingest, autophagy, "
                                "digest, read-only status} x {thread 0, thread 1}, and over {daemon cycle forced / at critical fill, ingest, "
                                "autophagy, clock advance, digest}", "cases": c2})
+        # digesters that return normally but hand back something the lysosome cannot (completely) merge, met by digest,
+        # the auto-digest (threshold 1 / 2) and the emergency digest (capacity 2 / 3)
+        alpha4 = ["ingest exp {i} 5", "ingest mis {i} 4", "ingest exp {i} 2", "ingest tox {i} 1", "digest none", "digest 1"]
+        c4 = []
+        for cfg in ["cfg 2 3 3515625 ssss b set", "cfg 3 2 3515625 ssss b set", "cfg 4 1 3515625 ssss b set",
+                    "cfg 8 9 3515625 ssss b set"]:
+            for k in range(1, 4 if tier == "quick" else 6):
+                for ops in itertools.product(alpha4, repeat=k):
+                    c4.append({"lines": [cfg] + [o.format(i=j + 1) for j, o in enumerate(ops)],
+                               "note": f"unmergeable digester results, depth {k}"})
+        spaces.append({"name": "all histories of <= 3 (quick) / 5 (thorough) ops over {item whose digester returns a "
+                               "half-mergeable / an unmergeable / a good value, sensitive item, digest all, digest 1} on 4 "
+                               "configurations (emergency digest, auto-digest, neither)", "cases": c4})
         if tier != "quick":
             # every schedule prefix of 2 x 2 operations is too many; exhaust the *burst patterns* instead:
             # all 2-thread programs of one op each over {ingest, digest, autophagy} x 64 seeded schedules
@@ -564,19 +612,29 @@ class C13(Prop):
         def scripted(w):
             note_digester_call()
             c = code(w)
-            k = c["c"] % 4
+            k = c["c"] % 8
             if k == 0:
                 ctx["calls"].append((c["seq"], "raise"))
                 raise RuntimeError("scripted digester")
             ctx["calls"].append((c["seq"], "ok"))
             # what comes back is not always a dict: the falsy values (None, 0, "", [], ()) are "nothing to recycle" like
             # {}, and dict.update takes a list of pairs as well as a mapping (a pure function of the item's number)
+            key, seq = f"k{c['id']}", c["seq"]
             if k == 1:
-                return [{}, None, [], 0, "", ()][c["seq"] % 6]
+                return [{}, None, [], 0, "", ()][seq % 6]
             if k == 2:
-                return {f"k{c['id']}": c["seq"]} if c["seq"] % 2 == 0 else [(f"k{c['id']}", c["seq"])]
-            return ({f"k{c['id']}": c["seq"], "shared": c["seq"]} if c["seq"] % 3 else
-                    ((f"k{c['id']}", c["seq"]), ("shared", c["seq"])))
+                return {key: seq} if seq % 2 == 0 else [(key, seq)]
+            if k == 3:
+                return ({key: seq, "shared": seq} if seq % 3 else ((key, seq), ("shared", seq)))
+            # the digester RETURNS, but what it hands back is foreign data of an unusual type:
+            if k == 4:      # truthy, and dict.update cannot merge any of it
+                return [7, "summary of the item", 2.5, object(), True, Fraction(1, 2), [1], b"ab", {1, 2},
+                        ("abc", "d")][seq % 10]
+            if k in (5, 7):  # the merge fails part-way: the pairs before the failure are already in the caller's dict
+                pairs = [(key, seq)] + ([("shared", seq)] if k == 7 else [])
+                return self._unmergeable_after(pairs, seq)
+            # k == 6: one key through a type other than dict / list that dict.update accepts
+            return self._mergeable_unusual([(key, seq)], seq)
 
         digesters = {}
         for i in range(4):
@@ -627,6 +685,53 @@ class C13(Prop):
         lys._lock = TraceLock(lys._lock, ctx["lockev"])
         ctx["lys"] = lys
         return ctx
+
+    @staticmethod
+    def _unmergeable_after(pairs, seq):
+        """a truthy value on which `dict.update` raises an Exception after merging exactly `pairs`"""
+        def gen():
+            yield from pairs
+            raise RuntimeError("backing store went away")
+
+        class It:
+            def __init__(self):
+                self.left = list(pairs)
+
+            def __iter__(self):
+                return self
+
+            def __next__(self):
+                if self.left:
+                    return self.left.pop(0)
+                raise OSError("stream closed")
+
+        class HalfMapping:
+            def keys(self):
+                return [k for k, _ in pairs] + ["missing"]
+
+            def __getitem__(self, k):
+                return dict(pairs)[k]              # KeyError on "missing"
+        return [gen(), list(pairs) + ["x"], tuple(pairs) + (5,), It(), HalfMapping(),
+                list(pairs) + [("a", "b", "c")]][seq % 6]
+
+    @staticmethod
+    def _mergeable_unusual(pairs, seq):
+        """the same pairs through types other than dict / list / tuple that `dict.update` merges completely"""
+        import collections
+        import types
+
+        class Sub(dict):
+            pass
+
+        class Mapping:
+            def keys(self):
+                return [k for k, _ in pairs]
+
+            def __getitem__(self, k):
+                return dict(pairs)[k]
+        return [(p for p in pairs), iter(list(pairs)), Sub(pairs), collections.OrderedDict(pairs),
+                types.MappingProxyType(dict(pairs)), Mapping(), zip([k for k, _ in pairs], [v for _, v in pairs]),
+                dict(pairs).items(), [list(p) for p in pairs], collections.ChainMap(dict(pairs))][seq % 10]
 
     def _content(self, ctx, ty, i, c):
         seq = ctx["seq"]
@@ -887,6 +992,8 @@ class C13(Prop):
                         d, snap = self._dump(ctx)
                         if kind == "raise":
                             snap["raise"] = type(val).__name__
+                        if kind == "ok" and isinstance(val, tuple):        # digest: what the DigestResult says
+                            snap["disposed"], snap["nerrors"] = val[1].disposed, len(val[1].errors)
                         snap["client_ingests"] = list(ctx["client_ingests"])
                         facts = getattr(self, "facts", None)
                         no_call = (t[0] == "prune" and t[2] in ("0", "3")) or (      # nothing to flush: not touched
@@ -1022,6 +1129,7 @@ class C13(Prop):
         #                           a CONSTANT capacity: lowering it under a longer queue suspends the clause until the
         #                           queue is back within it)
         ontox_changed = False     # the callback was removed / re-installed on the live object
+        dig_before = 0            # total_digested after the previous line
         for idx, (line, o, snap) in enumerate(zip(case["lines"], obs, snaps)):
             _tid, t = strip_thread(line.split())
             if not t:
@@ -1031,6 +1139,7 @@ class C13(Prop):
                 toxic_builtin, ontox = t[5] == "b", t[6] == "set"
                 n_ing, types, queued, expired, processed = 0, {}, [], set(), []
                 prev_bin = []
+                dig_before = 0
                 aware = set()
                 armed, ontox_changed = True, False
                 continue
@@ -1047,6 +1156,7 @@ class C13(Prop):
             if not is_call:
                 if snap is not None and "bin" in snap:
                     prev_bin = snap["bin"]
+                    dig_before = snap.get("dig", dig_before)
                 continue
             if t[0] == "prune":
                 # the daemon hands waste over "via Lysosome": every `ingest` call it made on the shared object (seen at
@@ -1106,6 +1216,18 @@ class C13(Prop):
                     f"{snap['auto']} + emergency-logged {snap['em']} + expired {snap['exp']} = {total}", idx))
             if len(set(snap["qseq"])) != len(snap["qseq"]):
                 out.append(Violation("fate_partition", "an item is queued once", f"queue seqs {snap['qseq']}", idx))
+            # "digested (counted)" and "reported as a digestion error" are two different fates: of the items a digest()
+            # call took out of the queue, the ones its DigestResult calls disposed are the ones the counter counts, the
+            # others are the ones it reports — one each
+            if t[0] == "digest" and "disposed" in snap and not any(l.split()[:1] == ["conc"] for l in case["lines"][:idx]):
+                took = len(queued) - snap["qsize"]
+                if snap["dig"] - dig_before != snap["disposed"]:
+                    out.append(Violation("fate_partition", f"digest() counts the {snap['disposed']} items it reports as "
+                                         f"disposed", f"total_digested went from {dig_before} to {snap['dig']}", idx))
+                if snap["disposed"] + snap["nerrors"] != took:
+                    out.append(Violation("fate_partition", f"each of the {took} items digest() took is disposed or "
+                                         f"reported, not both", f"disposed {snap['disposed']} + errors {snap['nerrors']}", idx))
+            dig_before = snap.get("dig", dig_before)
             if snap.get("bystander", (1, 1, 0, 0, 1000, 1000, True)) != (1, 1, 0, 0, 1000, 1000, True):
                 out.append(Violation("fate_partition", "a second lysosome alive (one item queued, nothing else ever "
                                      "done to it) keeps exactly that item", f"{snap['bystander']}", idx))
